@@ -150,7 +150,9 @@ func (c *c08case) check(cx *lib.Ctx, variant string, body hcl.Body, ctx *hcl.Eva
 	}
 	var val cty.Value
 	var diags hcl.Diagnostics
-	ok := decgen.Guard(cx, variant, after("panic:")[len("panic:"):], input, func() {
+	ok := decgen.GuardKey(cx, variant, func(key string) string {
+		return key + after("panic:")[len("panic:"):]
+	}, input, func() {
 		if partial {
 			var rest hcl.Body
 			val, rest, diags = hcldec.PartialDecode(body, c.spec.Spec, ctx)
@@ -380,6 +382,7 @@ func run(cx *lib.Ctx) {
 			res.Sample(c.in)
 		}
 	}
+	directedUnify(cx)
 	corrDec(cx)
 }
 
